@@ -73,6 +73,7 @@ var cmds = map[string]func([]string){
 	"fc-replay":             fcache.ReplayProc,
 	"fc-gate":               fcache.ReplayGate,
 	"fc-trunc":              fcache.Trunc,
+	"fc-conc":               fcache.ConcurrentModules,
 	"fc-det":                fcache.Determinism,
 	"fc-points":             fcache.TracePoints,
 }
